@@ -372,7 +372,16 @@ def oracle(case, obs):
                 # as single cases by `split_family`
                 pass
         return first
-    return oracle_one(case["reader"], case["text"], obs)
+    return oracle_one(case["reader"], case["text"], obs) or rejected_valid(case, obs)
+
+
+def rejected_valid(case, ob):
+    """a document the generator built VALID for this entry point must be returned, not rejected"""
+    if case.get("expect_ok") and ob["cls"] != "Ok":
+        return ("%s reader rejected a valid document (%s) with %s in %s: %r" % (
+                    case["reader"], case.get("kind"), ob.get("exc", ob["cls"]), ob.get("frame"), case["text"][:400]),
+                "%s:Rejected-ValidDocument" % case["reader"].split("_")[0])
+    return None
 
 
 def all_violations(case, obs):
@@ -384,7 +393,7 @@ def all_violations(case, obs):
             if v:
                 out.append((v[0], v[1], {"reader": case["reader"], "opts": case.get("opts", {}), "text": case["text"][:k]}, ob))
         return out
-    v = oracle_one(case["reader"], case["text"], obs)
+    v = oracle_one(case["reader"], case["text"], obs) or rejected_valid(case, obs)
     return [(v[0], v[1], case, obs)] if v else []
 
 
